@@ -39,8 +39,13 @@ FailsGen(e) ==
 RECURSIVE Occ(_, _)
 Occ(g, nm) == (IF g.k = "custom" /\ g.n = nm THEN 1 ELSE 0)
               + (IF "c" \in DOMAIN g THEN LET RECURSIVE Sum(_) Sum(i) == IF i > Len(g.c) THEN 0 ELSE Occ(g.c[i], nm) + Sum(i + 1) IN Sum(1) ELSE 0)
+\* ... and those of them that sit directly behind a (non-nil) pointer or are the value of a map entry: their memory
+\* comes from the codec's New
+RECURSIVE OccPtr(_, _)
+OccPtr(g, nm) == (IF g.k \in {"ptr", "entry"} /\ g.c # <<>> /\ g.c[1].k = "custom" /\ g.c[1].n = nm THEN 1 ELSE 0)
+                 + (IF "c" \in DOMAIN g THEN LET RECURSIVE Sum(_) Sum(i) == IF i > Len(g.c) THEN 0 ELSE OccPtr(g.c[i], nm) + Sum(i + 1) IN Sum(1) ELSE 0)
 CountOp(log, nm, op) == Cardinality({i \in 1..Len(log) : log[i].type = nm /\ log[i].op = op})
-CustomNames == {"CEmail", "CCelsius", "CTags", "CPoint", "CObjID", "COpt", "CRatio"}
+CustomNames == {"CEmail", "CCelsius", "CTags", "CPoint", "CObjID", "COpt", "CRatio", "CSuit"}
 \* COpt's codec omits some values by itself (Omit), so its Write / Read calls are not one per occurrence
 Counted == CustomNames \ {"COpt"}
 \* value equality with custom markers kept: structural equality of the projections, nil vs empty collections identified
@@ -55,6 +60,7 @@ FailsReg(e) ==
        \o Chk(\A i \in 1..Len(e.log) : e.log[i].type \in registered /\ e.log[i].id = e.latest[e.log[i].type], "a codec other than the most recently registered one was used")
        \o Chk(\A nm \in registered \cap Counted : CountOp(e.log, nm, "write") = Occ(e.value, nm), "the registered codec did not write every occurrence of its type (or wrote something else)")
        \o Chk(\A nm \in registered \cap Counted : CountOp(e.log, nm, "read") = Occ(e.value, nm), "the registered codec did not read every occurrence of its type")
+       \o Chk(\A nm \in registered \cap Counted : CountOp(e.log, nm, "new") = OccPtr(e.value, nm), "a value of the registered type behind a pointer or as a map value did not get its memory from the registered codec's New")
        \o Chk(\A nm \in registered \ Counted : CountOp(e.log, nm, "read") = CountOp(e.log, nm, "write") /\ CountOp(e.log, nm, "write") <= Occ(e.value, nm),
                "the registered codec of a self-omitting type did not read what it wrote")
        \o Chk(\A nm \in CustomNames \ registered : CountOp(e.log, nm, "write") = 0, "a codec ran for an unregistered type")
